@@ -164,6 +164,53 @@ def worker_build(tier, outdir, do_pickle, only=None):
                         table.setdefault("__pickle_same_process__", []).append([pid, d, d2])
                 except Exception as e:  # noqa: BLE001
                     table.setdefault("__pickle_errors__", []).append([pid, type(e).__name__ + ": " + str(e)[:100]])
+    # collections built, inspected and pickled under a NON-default configuration,
+    # then unpickled under the default one (here and in the loader process): the
+    # pickle must carry what the configuration decided (auto chunks, unification)
+    if not only or only.startswith("cfg:"):
+        import dask
+
+        cfgs = {
+            "small-chunks": {"array.chunk-size": "16B"},
+            "refine": {"array.unify-chunks-policy": "refine", "array.chunk-size": "32B"},
+            "coarse": {"array.unify-chunks-policy": "coarse"},
+        }
+        a64 = np.arange(24.0).reshape(6, 4)
+        builders = {
+            "rng-normal-auto": lambda: da.random.default_rng(1).normal(size=(6, 4), chunks="auto"),
+            "rng-poisson-auto": lambda: da.random.default_rng(2).poisson(3.0, size=(6, 4), chunks="auto"),
+            "rng-random-auto": lambda: da.random.default_rng(3).random((6, 4), chunks="auto"),
+            "rs-normal-auto": lambda: da.random.RandomState(4).normal(size=(6, 4), chunks="auto"),
+            "ones-auto": lambda: da.ones((6, 4), chunks="auto") + 1,
+            "rechunk-auto": lambda: da.from_array(a64, chunks=(1, 4)).rechunk("auto"),
+            "misaligned-add": lambda: da.from_array(a64, chunks=((2, 1, 3), (4,))) + da.from_array(a64 * 2, chunks=((3, 3), (2, 2))),
+            "misaligned-add3": lambda: (da.from_array(a64, chunks=((2, 1, 3), (4,))) + da.from_array(a64 * 2, chunks=((3, 3), (2, 2)))) * da.from_array(a64, chunks=((1, 5), (1, 3))),
+            "misaligned-add-sliced": lambda: (da.from_array(a64, chunks=((2, 1, 3), (4,))) + da.from_array(a64 * 2, chunks=((3, 3), (2, 2))))[1:5],
+        }
+        for cname, cfg in cfgs.items():
+            for bname, mk in builders.items():
+                pid = f"cfg:{cname}:{bname}"
+                if only and only != pid:
+                    continue
+                try:
+                    with dask.config.set(cfg):
+                        y = mk()
+                        d = _describe(y)
+                        val = y.compute(scheduler="sync")
+                        blob = cloudpickle.dumps(y)
+                    table[pid], table2[pid] = d, d
+                    if not do_pickle:
+                        continue
+                    with open(os.path.join(outdir, "p_" + _h(pid) + ".pkl"), "wb") as f:
+                        pickle.dump({"pid": pid, "blob": blob, "desc": d, "ref": np.asarray(val), "computes": True}, f)
+                    y2 = cloudpickle.loads(blob)  # default configuration from here on
+                    d2 = _describe(y2)
+                    if any(d2[k] != d[k] for k in ("name", "keys", "chunks", "dtype", "frisky")):
+                        table.setdefault("__pickle_same_process__", []).append([pid, d, d2])
+                    elif not np.array_equal(y2.compute(scheduler="sync"), val):
+                        table.setdefault("__pickle_same_process__", []).append([pid, dict(d, value="as computed before pickling"), dict(d2, value="differs")])
+                except Exception as e:  # noqa: BLE001
+                    table.setdefault("__pickle_errors__", []).append([pid, type(e).__name__ + ": " + str(e)[:100]])
     # untokenizable source: stable per instance, across repeated access and pickle
     r = Rec(np.arange(6.0))
     x = da.from_array(r, chunks=2)
@@ -243,7 +290,7 @@ def plan(tier, seed):
         "coverage": {
             "exhaustive": True,
             "bounds": {"programs": len(progs), "interpreters": 3, "hash_seeds": ["0", "1", "random"], "depth": 2, "ops_first": len(OPS1), "ops_second": len(OPS2), "sources": len(srcs)},
-            "rule": "every program of the depth<=2 space (named module-level functions only) is built in three fresh interpreters (PYTHONHASHSEED 0, 1, random) and twice inside each: name, __dask_keys__, sorted optimized graph keys, chunks, dtype and frisky output keys must be identical everywhere; every collection is cloudpickled in interpreter A and loaded in A and in a fresh interpreter B: identity unchanged, value equal NumPy; for every constructor of IDENTITY_VARIANTS (nested arguments with two equal components: rechunk tuples/dict, slice pairs, index lists, pad widths, reps, axes, overlap depths, reshape/broadcast shapes, chunks, kwargs, equal leaves) both sharing patterns (one object twice / two equal objects) give the same identity; an untokenizable source keeps its name per instance and across the round trip. Non-trivial = program with >= 1 op",
+            "rule": "every program of the depth<=2 space (named module-level functions only) is built in three fresh interpreters (PYTHONHASHSEED 0, 1, random) and twice inside each: name, __dask_keys__, sorted optimized graph keys, chunks, dtype and frisky output keys must be identical everywhere; every collection is cloudpickled in interpreter A and loaded in A and in a fresh interpreter B: identity unchanged, value equal NumPy; collections built, inspected and pickled under three non-default configurations (chunk-size 16B / unify-chunks-policy refine / coarse; auto-chunked random arrays, ones, rechunk('auto'), misaligned elemwise) keep identity and value when unpickled under the default configuration in the same and in a fresh process; for every constructor of IDENTITY_VARIANTS (nested arguments with two equal components: rechunk tuples/dict, slice pairs, index lists, pad widths, reps, axes, overlap depths, reshape/broadcast shapes, chunks, kwargs, equal leaves) both sharing patterns (one object twice / two equal objects) give the same identity; an untokenizable source keeps its name per instance and across the round trip. Non-trivial = program with >= 1 op",
         },
         "assumptions": ["tokenization of callables is dask.tokenize's (module-level functions only)", "scratch files live under /verif/.scratch and are removed"],
     }
